@@ -1106,7 +1106,12 @@ class SpectrumResult:
             for d in self._data["D"]:
                 arr = np.asarray(d, dtype=np.int64)
                 D_list.append(arr)
-            self._data["D"] = np.array(D_list, dtype=object)
+            # Always a 1-D object array with one entry per bin (np.array() would
+            # build a 2-D array when all bins share one segment count)
+            D_obj = np.empty(len(D_list), dtype=object)
+            for i_d, arr in enumerate(D_list):
+                D_obj[i_d] = arr
+            self._data["D"] = D_obj
 
         # Convenience: number of frequency bins
         self.nf = int(self._data.get("f", np.array([])).shape[0])
